@@ -18,10 +18,12 @@ pub struct NodeOpts {
     pub window: usize,
     pub max_interval: Duration,
     pub initial_interval: Duration,
+    /// extra liveness predicate `READY == "true"` (it only filters what the watch channel publishes)
+    pub predicate: bool,
 }
 impl Default for NodeOpts {
     fn default() -> Self {
-        NodeOpts { cluster: "c".into(), tomb_grace: Duration::from_secs(3600), dead_grace: Duration::from_secs(24 * 3600), phi: 8.0, window: 1000, max_interval: Duration::from_secs(10), initial_interval: Duration::from_secs(5) }
+        NodeOpts { cluster: "c".into(), tomb_grace: Duration::from_secs(3600), dead_grace: Duration::from_secs(24 * 3600), phi: 8.0, window: 1000, max_interval: Duration::from_secs(10), initial_interval: Duration::from_secs(5), predicate: false }
     }
 }
 
@@ -45,7 +47,7 @@ pub fn mk_node(id: ChitchatId, o: &NodeOpts) -> TestNode {
         catchup_callback: Some(Box::new(move || {
             cb2.fetch_add(1, Ordering::SeqCst);
         })),
-        extra_liveness_predicate: None,
+        extra_liveness_predicate: if o.predicate { Some(Box::new(|ns: &chitchat::NodeState| ns.get("READY") == Some("true"))) } else { None },
     };
     let seeds = watch::channel(Default::default()).1;
     TestNode { cc: Chitchat::with_chitchat_id_and_seeds(config, seeds, vec![]), id, cb }
